@@ -43,11 +43,14 @@ K = [
  ('oct_unit_q30', 'k_oct_unit', {}, 'OctahedronToolBox q=30: QuantizedOctahedralCoordsToUnitVector/CanonicalizeOctahedralCoords, all (s,t) (float ops as UF)', True, {'QC': 30}),
  ('texcoords_pred', 'k_texcoords', {'_ZN5draco7IntSqrtEm': 'uf'}, 'MeshPredictionSchemeTexCoordsPortablePredictor::ComputePredictedValue<false> on an arbitrary in-range table, real PointAttribute positions (4 entries); IntSqrt as an uninterpreted function (own kernel)', False, {}),
  ('texcoords_fallback', 'k_texcoords', {'_ZN5draco7IntSqrtEm': 'uf'}, 'tex-coord predictor with coinciding positions: choice of the fall-back neighbour (prev / next / last entry / zero) for every table, entry id and data', False, {'DEGENERATE_POSITIONS': 1}),
+ ('seq_conn', 'k_seq_conn', {'_ZN5draco13DecodeSymbolsEjiPNS_13DecoderBufferEPj': 'ret0', '_ZN5draco4Mesh7AddFaceERKSt5arrayINS_9IndexTypeIjNS_20PointIndex_tag_type_EEELm3EE': 'noop'},
+  'MeshSequentialDecoder::DecodeConnectivity: header fields, index width per number of points (uint8/uint16/varint/uint32), bytes consumed; Mesh::AddFace and the compressed path cut', False, {}),
  ('intsqrt', 'k_intsqrt', {}, 'IntSqrt for all n < 2^20', False, {}),
 ]
 OBLIGATIONS = []
 for name, entry, stubs, what, uf, defs in K:
     OBLIGATIONS.append(Ob('C05.' + name, H, entry, tier=('thorough' if name in ('intsqrt', 'texcoords_pred') else 'quick'), unwind={'bit_start': 36, 'rans_tab5': 8, 'rans_tab18': 8, 'intsqrt': 24}.get(name, 14), uf_int=(False if name == 'intsqrt' else ('all' if name.startswith('oct_') else True)), engine='tv', stubs=stubs, uf_float=uf, defines=defs, max_alloc=(64 if name.startswith('texcoords') else 16),
+        object_bits=10,
         allow_alloc_cut=True, fill_bound=12, diff=False, backend=('kissat' if name == 'texcoords_pred' else 'minisat'),
         bound='current kernel == kernel frozen at the pinned revision, for all inputs of the kernel harness (10 symbolic stream bytes / all integer arguments)',
         covers=what))
